@@ -101,6 +101,10 @@ class Cond:
             return "%s%s@bb%d" % (n, norm(self.site.name), self.site.bb)
         if self.kind == "binop":
             return "%s%s(%s,%s)" % (n, self.op, op_str(self.a), op_str(self.b))
+        if self.kind == "arg":
+            return "%sarg:%s" % (n, self.name)
+        if self.kind == "place":
+            return "%s%s" % (n, place_str(self.place))
         return "%s%s" % (n, self.kind)
 
 
@@ -515,6 +519,8 @@ class Fn:
         while depth > 0:
             depth -= 1
             ds = self.whole_defs(l)
+            if not ds and 1 <= l <= self.argc:
+                return Cond("arg", neg=neg, local=l, name=self.local_name(l))
             if len(ds) != 1:
                 return Cond("multi" if ds else "unknown", neg=neg, local=l, defs=ds)
             d = ds[0]
@@ -621,10 +627,19 @@ class Fn:
         p = self.path(frm, [block], avoid_edges=good)
         if p is None:
             return (True, None)
+        # the syntactic path may be infeasible (`matches!` / bool temporaries): retry path-sensitively
+        try:
+            reached, _ = AbsPaths(self).explore(frm, avoid_edges=good)
+            if block not in reached:
+                return (True, None)
+        except AbsPaths.Undecided:
+            pass
         return (False, p)
 
     def must_pass(self, frm, dsts, through_blocks):
         """P-cut: every path frm -> dsts passes through one of through_blocks. Returns (ok, witness)."""
+        if frm in set(through_blocks):
+            return (True, None)
         p = self.path(frm, dsts, avoid_blocks=through_blocks)
         if p is None:
             return (True, None)
@@ -1092,3 +1107,198 @@ def closure_arg_of(fn, site, index):
 def sig(roots):
     """Significant roots: drop Deref/Pin/project plumbing calls and literal constants."""
     return {r for r in roots if not (r.kind == "call" and is_transparent(r.site)) and r.kind != "const"}
+
+
+# ---------------------------------------------------------------- P-var: variant-set abstract paths
+
+PURE_PREDICATES = {
+    "Poll::is_ready": lambda v: _is_variant(v, "Ready"),
+    "Poll::is_pending": lambda v: _is_variant(v, "Pending"),
+    "Option::is_some": lambda v: _is_variant(v, "Some"),
+    "Option::is_none": lambda v: _is_variant(v, "None"),
+    "Result::is_ok": lambda v: _is_variant(v, "Ok"),
+    "Result::is_err": lambda v: _is_variant(v, "Err"),
+}
+
+
+def _is_variant(v, name):
+    if v is None or v[0] != "variant":
+        return None
+    return v[1] == name
+
+
+class AbsPaths:
+    """Path-sensitive forward exploration with a tiny abstract domain (DESIGN.md P-var):
+    value of a local = unknown | ('const', text) | ('variant', name, ((field_idx, value), ...)) | ('ref', local).
+    Switch edges that contradict the known value are pruned.  Exploration is bounded; exceeding the
+    bound raises Undecided (never answers 'held')."""
+
+    class Undecided(Exception):
+        pass
+
+    def __init__(self, fn, limit=20000):
+        self.fn = fn
+        self.limit = limit
+        self.labels = {}
+        for (a, b, lab) in fn.edges():
+            self.labels[(a, b)] = lab
+
+    # -- evaluation
+    def _eval_operand(self, st, o):
+        p = op_place(o)
+        if p is None:
+            k = o.get("k", {})
+            return ("const", k.get("item") or k.get("v"))
+        return self._eval_place(st, p)
+
+    def _eval_place(self, st, p):
+        v = st.get(p["l"])
+        projs = list(p["p"])
+        i = 0
+        while i < len(projs):
+            e = projs[i]
+            if v is None:
+                return None
+            if e == "*":
+                if v[0] == "ref":
+                    v = st.get(v[1])
+                    i += 1
+                    continue
+                return None
+            if isinstance(e, dict) and "d" in e:
+                if v[0] != "variant" or v[1] != e["d"]:
+                    return None
+                i += 1
+                continue
+            if isinstance(e, dict) and "f" in e:
+                if v[0] != "variant":
+                    return None
+                fv = dict(v[2]).get(e["f"])
+                v = fv
+                i += 1
+                continue
+            return None
+        return v
+
+    def _assign(self, st, s):
+        p = s["p"]
+        if p["p"]:
+            st.pop(p["l"], None)
+            return
+        r = s["r"]
+        k = r["k"]
+        val = None
+        if k == "use":
+            val = self._eval_operand(st, r["o"])
+        elif k == "agg" and "adt" in r:
+            fields = []
+            for i, o in enumerate(r["ops"]):
+                fv = self._eval_operand(st, o)
+                if fv is not None:
+                    fields.append((i, fv))
+            val = ("variant", r["v"], tuple(fields))
+        elif k == "ref":
+            q = r["p"]
+            if not q["p"]:
+                val = ("ref", q["l"])
+                if r["bk"] == "mut":
+                    val = ("refmut", q["l"])
+        if val is None:
+            st.pop(p["l"], None)
+        else:
+            st[p["l"]] = val
+
+    def _call(self, st, t):
+        site = CallSite(self.fn, -1, t)
+        n = norm(site.name)
+        res = None
+        for pat, fnp in PURE_PREDICATES.items():
+            if n.endswith("::" + pat) or n.endswith(pat):
+                if site.args:
+                    av = self._eval_operand(st, site.args[0])
+                    if av is not None and av[0] in ("ref", "refmut"):
+                        av = st.get(av[1])
+                    r = fnp(av)
+                    if r is not None:
+                        res = ("const", "true" if r else "false")
+                break
+        else:
+            # unknown callee: anything reachable through a &mut argument is clobbered
+            for a in site.args:
+                av = self._eval_operand(st, a)
+                if av is not None and av[0] == "refmut":
+                    st.pop(av[1], None)
+        d = t["dest"]
+        if d["p"] or res is None:
+            st.pop(d["l"], None)
+        else:
+            st[d["l"]] = res
+
+    def values_at(self, block, operand, start=0):
+        """Set of abstract values (None = unknown) the operand can have when control reaches the
+        terminator of `block` on feasible paths from `start`."""
+        vals = set()
+
+        def obs(b, st):
+            if b == block:
+                vals.add(self._eval_operand(st, operand))
+
+        self.explore(start, observe=obs)
+        return vals
+
+    def explore(self, start, stop_blocks=(), state=None, avoid_edges=(), observe=None):
+        """All blocks reachable from the beginning of `start` on feasible paths; blocks in stop_blocks are
+        recorded but not expanded.  Returns (reached_blocks, n_states)."""
+        fn = self.fn
+        stop_blocks = set(stop_blocks)
+        avoid_edges = set(avoid_edges)
+        seen = set()
+        reached = set()
+        stack = [(start, tuple(sorted((state or {}).items())))]
+        n = 0
+        while stack:
+            b, fst = stack.pop()
+            if (b, fst) in seen:
+                continue
+            seen.add((b, fst))
+            n += 1
+            if n > self.limit:
+                raise AbsPaths.Undecided("more than %d abstract states" % self.limit)
+            reached.add(b)
+            if b in stop_blocks and b != start:
+                continue
+            st = dict(fst)
+            for s in fn.stmts(b):
+                if s["k"] == "assign":
+                    if is_noise(s):
+                        st.pop(s["p"]["l"], None)
+                    else:
+                        self._assign(st, s)
+                elif s["k"] == "dead":
+                    st.pop(int(s["l"]), None)
+            t = fn.term(b)
+            if observe is not None:
+                observe(b, st)
+            if t["k"] == "call":
+                if is_noise(t):
+                    st.pop(t["dest"]["l"], None)
+                else:
+                    self._call(st, t)
+            elif t["k"] == "yield":
+                st.pop(t["ra"]["l"], None)
+            for s2 in fn.succ[b]:
+                if (b, s2) in avoid_edges:
+                    continue
+                lab = self.labels.get((b, s2))
+                if lab is not None and t["k"] == "switch":
+                    if lab.kind == "variant":
+                        v = self._eval_place(st, lab.place)
+                        if v is not None and v[0] == "variant" and v[1] not in lab.variants:
+                            continue
+                    elif lab.kind == "bool" and lab.raw is not None:
+                        v = self._eval_operand(st, t["o"])
+                        if v is not None and v[0] == "const" and v[1] in ("true", "false"):
+                            if (v[1] == "true") != lab.raw:
+                                continue
+                stack.append((s2, tuple(sorted(st.items()))))
+        return reached, n
